@@ -929,6 +929,11 @@ MP_BODIES = [
     b"--B\n" + CD + b"\n\nxn--\xff.a..b\n--B--\n", b"--B\r" + CD + b"\r\rx\r--B--\r",
     b"preamble\r\n--B\r\n" + CD + b"\r\n\r\n+AHs-\r\n--B\r\n" + CD + b":\xff\r\n\r\ny\r\n--B--\r\nepilogue",
     b"--B\r\n" + b"A" * 5000 + b"\r\n\r\nx\r\n--B--\r\n", b"--B\r\n\x00\r\n\r\nx\r\n--B--\r\n",
+    # extended parameters (RFC 5987 / 2231) with charset labels that name no text encoding, broken escapes
+] + [b"--B\r\n" + CD + b"; " + ext + b"\r\n\r\nx\r\n--B--\r\n" for ext in (
+    b"filename*=utf-9''%41", b"filename*=x-user-defined''a%FFb", b"filename*=hex''%41%42", b"filename*=UTF-8''%E2%82",
+    b"filename*=''%", b"filename*=utf-8'en'%zz", b"filename*0*=utf-8''a; filename*1=b", b"name*=punycode''%41",
+    b"filename*=\x00''%41", b"filename=\"a\"; filename*=idna''%2E%2E")
 ]
 
 NOISE = ["\x00", "\xff", "%", "%zz", "\u0663", "\u2028", "\"", "\\", ";", "=", ",", " ", "\t", "[", "]", "(", DIGITS5000,
